@@ -37,10 +37,23 @@ class C05(EgSpec):
     streams = [
         {'name': 'default', 'component': 'eg5', 'config': 'default', 'quick': 400, 'thorough': 10000},
         {'name': 'checks', 'component': 'eg5', 'config': 'checks', 'quick': 100, 'thorough': 2000},
+        # the verified checker matches_okb (MatchLookup.matches_okb_sound) and the invariants the matcher theorems assume, evaluated
+        # by the model on the state after the history for every single pattern of the case (machine eg5c)
+        {'name': 'certificate', 'component': 'eg5', 'config': 'default', 'quick': 150, 'thorough': 3000},
     ]
+
+    def model_input(self, stream, case, impl_obs):
+        if stream['name'] == 'certificate':
+            pc = core.sx_parse(case)
+            return core.sx_show(['eg5c'] + pc[1:])
+        return case
 
     def evaluate(self, stream, case, impl_obs, model_obs, ctx):
         out = []
+        if stream['name'] == 'certificate':
+            if model_obs is not None and model_obs.strip() not in ('(cert (kids true) (pats-pre true) (matches true))', '(cert history-error)', '(cert rules-error)'):
+                out.append(('differs', 'match-certificate', 'the verified match checker / the invariants of the matcher theorems fail on the model for this case: %s' % model_obs.strip(), {}))
+            return out
         extra = ctx.get('extras', {}).get(case, '')
         bad = flags(impl_obs, extra)
         if bad:
